@@ -269,6 +269,29 @@ func TestClean(t *testing.T) {
 			if rerr != nil || rd == nil {
 				return
 			}
+			if c.Bool("twoStepRead") {
+				// the streaming way of reading: the prologue first, then the payload from the SAME
+				// reader (which offers nothing but Read): nothing of the payload may have been
+				// taken by the first step
+				sr := c.NewReader("cdn2", file, c.DrawReaderPlan("cdn2", len(file), false))
+				var pe *signedexchange.Exchange
+				var perr error
+				if pi := c.Guard("ReadExchangePrologue", func() { pe, perr = signedexchange.ReadExchangePrologue(sr) }); pi != nil {
+					c.CheckTotal("ReadExchangePrologue", len(file), pi, 0)
+				}
+				rest, rerr2 := io.ReadAll(sr)
+				if c.Oracle("C02") {
+					if perr != nil || rerr2 != nil {
+						c.Violation("read-error", "ReadExchangePrologue", "two-step read of the writer's output failed: %v / %v", perr, rerr2)
+					}
+					if !bytes.Equal(rest, l.EncPayload) {
+						c.Violation("readback", "ReadExchangePrologue+payload", "after the prologue the same reader yields %d payload bytes, the file holds %d", len(rest), len(l.EncPayload))
+					}
+					pe.Payload = rest
+					checkReadBack(c, pe, l, "ReadExchangePrologue+payload")
+				}
+				c.Probe("two-step read: prologue, then payload from the same reader")
+			}
 			// history: another file is read in between; the first result must still be the model
 			if c.Bool("readOtherInBetween") {
 				o := gen.DrawSXG(c, "other", 2)
@@ -747,8 +770,22 @@ func tamper(c *core.Ctx, w *world, l *gen.LSXG) (*signedexchange.Exchange, strin
 		return readIt(o.File), "misdirected"
 	case "certnet":
 		e := readIt(l.File)
-		op := c.PickStr("certnet.op", "unreachable", "foreign-chain", "corrupt-chain", "truncated-chain", "chain-of-same-host-other-key")
+		op := c.PickStr("certnet.op", "unreachable", "foreign-chain", "corrupt-chain", "truncated-chain", "chain-of-same-host-other-key", "garbage-chain", "empty-chain")
+		if e != nil && c.Chance("certnet.twoSignatures", 1, 3) {
+			// the header lists the signature twice: both name the same cert-url, which is
+			// fetched (and fails, or not) once per signature
+			h := e.SignatureHeaderValue
+			e.SignatureHeaderValue = h + ", " + strings.Replace(h, "label", "label2", 1)
+			c.Probe("certificate fault with two signatures naming one cert-url")
+		}
 		switch op {
+		case "garbage-chain":
+			w.net.blobs[l.CertURL] = c.Bytes("certnet.garbage", 0, 40)
+			c.Fault("certnet-garbage-chain")
+		case "empty-chain":
+			// a well-formed chain file without any certificate
+			w.net.blobs[l.CertURL] = append([]byte{0x81, 0x67}, []byte("\U0001F4DC\u26D3")...)
+			c.Fault("certnet-empty-chain")
 		case "unreachable":
 			w.net.fail = true
 			c.Fault("certnet-unreachable")
@@ -968,7 +1005,9 @@ func judgeAccept(c *core.Ctx, w *world, e *signedexchange.Exchange, payload []by
 	// of the header's shape, which may be damaged yet still valid)
 	bound := false
 	for _, m := range certShaRe.FindAllStringSubmatch(e.SignatureHeaderValue, -1) {
-		if b, err := base64.StdEncoding.DecodeString(m[1]); err == nil && bytes.Equal(b, servedHash[:]) {
+		// (the structured-header grammar lets a parser accept binary content whose base64
+		// padding is missing, so padding is not demanded here either)
+		if b, err := base64.RawStdEncoding.DecodeString(strings.TrimRight(m[1], "=")); err == nil && bytes.Equal(b, servedHash[:]) {
 			bound = true
 		}
 	}
@@ -1113,6 +1152,7 @@ func TestSigHeaderFaults(t *testing.T) {
 				}
 			}
 			e.SignatureHeaderValue = string(h)
+			c.Event("Signature header as received: %q", h)
 			tm := clientTime(c, l)
 			v := verify(c, e, tm, w.net)
 			if c.Oracle("C10", "C01") {
